@@ -14,6 +14,7 @@ import (
 
 	"github.com/Masterminds/semver"
 	"github.com/cube2222/octosql/config"
+	"github.com/cube2222/octosql/plugins/verifhook"
 )
 
 var repositoriesDir = func() string {
@@ -67,15 +68,18 @@ func AddRepository(ctx context.Context, url string) error {
 	if err != nil {
 		return fmt.Errorf("couldn't encode repository entry: %w", err)
 	}
+	verifhook.CrashPoint("addrepo:mkdir")
 	if err := os.MkdirAll(repositoriesDir, 0755); err != nil {
 		return fmt.Errorf("couldn't create plugin repositories directory: %w", err)
 	}
 	// Write to a temporary file outside of the repositories directory (every file in there is read as an entry)
 	// and rename, so that an interrupted write never leaves a truncated entry behind.
 	tmpPath := repositoriesDir + "-" + repo.Slug + ".tmp"
-	if err := os.WriteFile(tmpPath, data, 0644); err != nil {
+	verifhook.CrashPoint("addrepo:write-tmp")
+	if err := os.WriteFile(tmpPath, verifhook.Tear("addrepo:write-tmp", data), 0644); err != nil {
 		return fmt.Errorf("couldn't write repository entry: %w", err)
 	}
+	verifhook.CrashPoint("addrepo:move-into-place")
 	if err := os.Rename(tmpPath, filepath.Join(repositoriesDir, repo.Slug)); err != nil {
 		return fmt.Errorf("couldn't move repository entry into place: %w", err)
 	}
